@@ -1,4 +1,5 @@
 """C03 - the kernel never fails on its own: no leaked signal, internal error or livelock."""
+import os
 from hypothesis import strategies as st
 
 from vlib.runner import Check, Outcome
@@ -160,6 +161,60 @@ class C03(Check):
 
     def strategy(self, tier):
         return cases(tier)
+
+    # ---- thorough tier: the same property under coverage-guided fuzzing (atheris / libFuzzer)
+    _fuzz = {}
+
+    def extra_phase(self, tier, seed):
+        import glob
+        import json
+        import shutil
+        import subprocess
+        import sys
+        from vlib.runner import ROOT
+        if tier != 'thorough':
+            return []
+        runs = int(20000 * float(os.environ.get('VERIF_SCALE', '1')))
+        base = os.path.join(ROOT, '.fuzz', 'C03-%d' % os.getpid())
+        shutil.rmtree(base, ignore_errors=True)
+        procs = []
+        env = dict(os.environ, PYTHONPATH=os.pathsep.join([os.environ.get('USIM_REPO', '/repo'), ROOT, os.path.join(ROOT, '.deps')]))
+        try:
+            subprocess.run([sys.executable, '-c', 'import atheris'], env=env, check=True, capture_output=True)
+        except Exception:
+            r = subprocess.run([sys.executable, '-m', 'pip', 'install', '--no-index', '--find-links', '/opt/veriftools/wheels',
+                                '--target', os.path.join(ROOT, '.deps'), 'atheris'], capture_output=True)
+            if r.returncode:
+                self._fuzz = {'atheris': 'not installable offline: skipped'}
+                return []
+        for j in range(8):
+            out = os.path.join(base, 'w%d' % j)
+            os.makedirs(os.path.join(out, 'corpus'), exist_ok=True)
+            cmd = [sys.executable, '-B', os.path.join(ROOT, 'tools', 'fuzz_c03.py'), out, '-runs=%d' % runs,
+                   '-seed=%d' % (seed * 100 + j + 1), '-max_len=16384', '-len_control=0',
+                   '-artifact_prefix=%s/' % out, os.path.join(out, 'corpus')]
+            procs.append((out, subprocess.Popen(cmd, env=env, stdout=subprocess.DEVNULL, stderr=subprocess.DEVNULL, cwd=ROOT)))
+        found, cases_n, evals_n = [], 0, 0
+        for out, pr in procs:
+            try:
+                pr.wait(timeout=600)
+            except subprocess.TimeoutExpired:
+                pr.kill()               # time budget: inconclusive for this worker, never a violation
+            try:
+                stt = json.load(open(os.path.join(out, 'stats.json')))
+                cases_n += stt['cases']
+                evals_n += stt['evals']
+            except Exception:
+                pass
+            for f in glob.glob(os.path.join(out, 'fail_*.json')):
+                found.append(json.load(open(f))['case'])
+        self._fuzz = {'atheris_workers': len(procs), 'atheris_runs_per_worker': runs, 'atheris_valid_cases': cases_n,
+                      'atheris_executions': evals_n, 'atheris_failing_inputs': len(found)}
+        shutil.rmtree(base, ignore_errors=True)
+        return found
+
+    def extra_evidence(self):
+        return dict(self._fuzz)
 
     def run_case(self, case, tier='quick'):
         out = Outcome()
